@@ -34,7 +34,8 @@ func main() {
 		log.Fatalf("%s: %v", os.Args[2], err)
 	}
 	manifests = append(manifests, m)
-	if err := cmd.GenerateCode(os.Args[1], manifests, false); err != nil {
+	// VERIF_GEN_WITH_PACKAGE_ROOT=1 stands for the generator's --generate-with-package-root flag
+	if err := cmd.GenerateCode(os.Args[1], manifests, os.Getenv("VERIF_GEN_WITH_PACKAGE_ROOT") == "1"); err != nil {
 		log.Fatalf("%+v", err)
 	}
 }
